@@ -1,4 +1,5 @@
 import Fpdec.Lemmas.Text
+import Fpdec.Kernels.Format
 import Fpdec.Model.Parser
 import Fpdec.Lemmas.Parse
 import Fpdec.Props.C07_Sites
@@ -62,5 +63,26 @@ theorem roundtrip (prof : Profile) (d : Dec) (hd : Dom d) :
 
 /-! ### non-vacuity -/
 example : toStringDec Profile.dev ⟨-5, 3⟩ = .ok [45, 48, 46, 48, 48, 53] := by decide   -- "-0.005"
+
+/-! ### translated kernels
+The Lean definitions `Gen.K.*` are regenerated from the Rust source on every run by `tools/fpkernels.py` (expression-level
+translation; `format!` / `write!` placeholder by placeholder).  These theorems tie them to the hand-written model the property
+theorems above are about, and give the end-to-end statements about the *translated* functions. -/
+theorem kernel_string_from_decimal (prof : Profile) (d : Dec) (hd : Dom d) :
+    Gen.K.string_from_decimal prof d = toStringDec prof d := Kernels.string_from_decimal_eq prof d hd
+theorem kernel_decimal_debug_fmt (prof : Profile) (d : Dec) (f : Std.FmtSpec) (hd : Dom d) :
+    Gen.K.decimal_debug_fmt prof d f = debugDec prof d := Kernels.decimal_debug_fmt_eq prof d f hd
+theorem kernel_decimal_display_fmt (prof : Profile) (tm : Mode) (d : Dec) (f : Std.FmtSpec) (hd : Dom d) :
+    Gen.K.decimal_display_fmt prof tm d f = display prof tm f d := Kernels.decimal_display_fmt_eq prof tm d f hd
+/-- end to end: the translated `String::from`, `to_string` (= `Display` with default flags) and `Debug` produce the canonical text -/
+theorem kernel_string_from_spec (prof : Profile) (d : Dec) (hd : Dom d) :
+    Gen.K.string_from_decimal prof d = .ok (Spec.render d.coeff d.nfrac) := by
+  rw [Kernels.string_from_decimal_eq prof d hd]; exact string_from_spec prof d hd
+theorem kernel_to_string_spec (prof : Profile) (tm : Mode) (d : Dec) (hd : Dom d) :
+    Gen.K.decimal_display_fmt prof tm d {} = .ok (Spec.render d.coeff d.nfrac) := by
+  rw [Kernels.decimal_display_fmt_eq prof tm d {} hd]; exact to_string_spec prof tm d hd
+theorem kernel_debug_spec (prof : Profile) (d : Dec) (f : Std.FmtSpec) (hd : Dom d) :
+    Gen.K.decimal_debug_fmt prof d f = .ok ([68, 101, 99, 33, 40] ++ Spec.render d.coeff d.nfrac ++ [41]) := by
+  rw [Kernels.decimal_debug_fmt_eq prof d f hd]; exact debug_spec prof d hd
 
 end Fpdec.Props.C07
